@@ -49,8 +49,8 @@ type FuncV struct{ Alts []FuncAlt }
 // cursor-up total (numbers appended with strconv.AppendInt), content identity.
 type Text struct {
 	W, N, NL, CUU, ID T
-	Lit                *string // concrete content when known (constants and their concatenations)
-	SEQ, K             T       // order fingerprint: base-16 digits of the marked pieces in order, and their number (nil = none)
+	Lit               *string // concrete content when known (constants and their concatenations)
+	SEQ, K            T       // order fingerprint: base-16 digits of the marked pieces in order, and their number (nil = none)
 }
 
 type StructV struct{ F []Value }
